@@ -20,8 +20,16 @@ def updateStateWithServiceResult (env : Env) (t : Tetraplet) (argHash : String) 
     -- try_to_service_result
     match env.parseJson sr.result with
     | none =>
-      -- (`{service_result}` and the serde error text of the message are not modelled)
-      throwE (.unmodelled "service result that is not JSON (serde error text)")
+      -- the result is not JSON: a `Failed` state with code `i32::MAX` is recorded (and, since the fix
+      -- in /repo, registered for signing like every other own result); `env.parseErr` is serde's error text
+      let msg := s!"call_service result 'ret_code: {sr.retCode}, result: '{sr.result}'' can't be serialized or deserialized with an error: {env.parseErr sr.result}"
+      do
+        modifyCtx fun c =>
+          let failed := callServiceFailedValue i32Max msg
+          let (cid, cs) := trackServiceResult env c.cid failed t argHash
+          let c := ({ c with cid := cs }).recordCallCid t.peerPk cid
+          { c with th := c.th.meetCallEnd (.failed cid) }
+        throwE (.catchable (.localServiceError i32Max msg))
     | some result =>
       modifyER fun c => do
         let (cr, c') ← populateFromPeerServiceResult env c result t argHash c.th.tracePos out
